@@ -139,6 +139,18 @@ Example C02_the_forms_example :
   parse_expr 9 (strip (pp_tok en (EBin Add (EThe TSystem 27) (EInt 1)))) = Some (EBin Add (EThe TSystem 27) (EInt 1), []).
 Proof. split; [cbn; lia|]. repeat split; vm_compute; reflexivity. Qed.
 
+(* properties addressed by name: the <name> (5F n; attached to its runtime object when the decompiler's table knows one)
+   and the <name> of <expression> (61 n) - inversion, text and parser; the first one also in the JavaScript theorems *)
+Example C02_by_name_forms_example :
+  let en := Build_env ["x"; "frameLabel"; "width"; "ink"] [] [Leaf KLocal "s" 0 true] [] [] in
+  let e := EAcc 2 (ECall 0 [ETheN 1; ELoc 0]) in                  (* the width of x(the frameLabel, s) *)
+  wf_e en e /\ text_ok en e /\
+  compile_e e = [Byte.x5f; Byte.x01; Byte.x4c; Byte.x00; Byte.x43; Byte.x02; Byte.x57; Byte.x00; Byte.x61; Byte.x02] /\
+  gen_lingo (reify_e en 0 e) 0 = "the width of x(the frameLabel, s)" /\
+  gen_lingo (reify_e en 0 (ETheN 3)) 0 = "the ink" /\
+  parse_expr 20 (strip (pp_tok en e)) = Some (e, []).
+Proof. split; [cbn; repeat split; lia|]. split; [cbn; repeat split; reflexivity|]. repeat split; vm_compute; reflexivity. Qed.
+
 (* Statement lines: the line emitted for a decompiled assignment or statement-position call is the canonical
    line of the SOURCE statement - "set <target> = <expression>" with the target written as a variable, or as
    "the <name>" for a property the script does not declare; "<handler> <arguments>" without parentheses. *)
